@@ -55,7 +55,26 @@ func ruleC10_3(c *Ctx) {
 			if !hidden(cn) {
 				continue
 			}
-			allowed := fname(f) == "in_toto.VerifyLayoutExpiration" && strings.HasPrefix(cn, "time.")
+			// the clock is read by the expiry check (R-C06-2) only: inside an expiry checker, or as the argument that
+			// fills an expiry checker's reference-time parameter
+			allowed := false
+			if strings.HasPrefix(cn, "time.") {
+				if c.expiryChecker(f) >= 0 {
+					allowed = true
+				} else if v := call.Value(); v != nil && v.Referrers() != nil {
+					only := len(*v.Referrers()) > 0
+					for _, r := range *v.Referrers() {
+						if _, isDbg := r.(*ssa.DebugRef); isDbg {
+							continue
+						}
+						cc, isCall := r.(ssa.CallInstruction)
+						if !isCall || c.expiryChecker(cc.Common().StaticCallee()) < 0 {
+							only = false
+						}
+					}
+					allowed = only
+				}
+			}
 			c.check(allowed, R, fname(f), "reads "+cn, call.Pos(), "the single expiry comparison (R-C06-2)", "a function on the verification path reads "+cn+": the verdict depends on something other than the supplied inputs")
 		}
 	}
@@ -277,4 +296,57 @@ func ruleC16_4(c *Ctx) {
 		}
 	}
 	c.ok(R, "in_toto, internal/spiffe", "no exported function returns package-level memory (other than error sentinels)", 0, fmt.Sprintf("%d exported functions scanned", n))
+}
+
+// R-C16-5: exported functions treat the memory behind their slice / map / pointer parameters as read-only. Callers
+// share option lists (hash algorithms, exclude patterns, strip prefixes, key maps) between concurrent calls; a library
+// function that writes through such a parameter races with every other call that was handed the same list. Decided by
+// the A4 effects analysis with every reference parameter as owned memory. Reviewed exceptions are the pipeline stages
+// whose contract is to update the verified-link map they are given.
+var c16WriteThroughParams = map[string]string{
+	"in_toto.VerifySublayouts": "contract: replaces a verified sublayout by its summary link in the map it is given (R-C08-3); the map is produced by the threshold check of the same verification run",
+	"in_toto.VerifyArtifacts":  "verifyMatchRule normalises artifact paths of the links it is given in place (path.Clean); the links are loaded by the same verification run (reviewed: a3MapWriteTable)",
+}
+
+func init() {
+	if p := registry["C16"]; p != nil {
+		p.Rules = append(p.Rules, Rule{ID: "R-C16-5", Doc: "exported functions do not write through their slice / map / pointer parameters", Min: 20, Run: ruleC16_5})
+		p.Explanation += " (R-C16-5) no exported non-method function of in_toto writes through memory reachable from its parameters (A4 effects analysis, every reference parameter owned by the caller), except the two reviewed pipeline stages: option lists shared by concurrent calls stay untouched."
+	}
+}
+
+func ruleC16_5(c *Ctx) {
+	const R = "R-C16-5"
+	for _, f := range c.srcFuncs("in_toto") {
+		if f.Parent() != nil || f.Signature.Recv() != nil || f.Object() == nil || !f.Object().Exported() {
+			continue
+		}
+		ctx := make([]pc, len(f.Params))
+		any := false
+		for i, prm := range f.Params {
+			if hasRefs(prm.Type()) {
+				ctx[i] = pc{isRefType(prm.Type()), true}
+				any = true
+			}
+		}
+		if !any {
+			continue
+		}
+		fn := fname(f)
+		a := newA4(c.Prog)
+		s := a.analyse(f, ctx, nil)
+		if len(s.writes) == 0 {
+			c.ok(R, fn, "parameters are read-only", f.Pos(), fmt.Sprintf("%d function contexts analysed, no write through parameter memory", len(a.memo)))
+			continue
+		}
+		if reason, ok := c16WriteThroughParams[fn]; ok {
+			c.ok(R, fn, "parameters are read-only", f.Pos(), "reviewed exception: "+reason)
+			continue
+		}
+		var ws []string
+		for _, w := range s.writes {
+			ws = append(ws, fmt.Sprintf("%s at %s (%s)", w.path, c.pos(w.instr.Pos()), strings.Join(w.chain, " -> ")))
+		}
+		c.bad(R, fn, "parameters are read-only", s.writes[0].instr.Pos(), "writes through memory owned by its caller: "+strings.Join(ws, "; ")+" — concurrent calls that share this argument (an option list, a key map) race on it")
+	}
 }
